@@ -19,6 +19,8 @@ type stmt struct {
 	Var string // right-hand side: a global …
 	V   *TV    // … or a literal
 	Key string // sel
+	Txt string // def/asg with V: the source text of the right-hand side when it is not V.src() (literals.go: the
+	// expression as written, e.g. `1.0`, `'7'`, `true ? 1 : 1.0`; V is the value that text denotes)
 }
 
 func ti(n int64) *TV              { return &TV{K: "i", I: n} }
@@ -91,7 +93,11 @@ func srcText(src []stmt) string {
 	for _, s := range src {
 		rhs := s.Var
 		if rhs == "" && s.V != nil {
-			rhs = s.V.src()
+			if s.Txt != "" {
+				rhs = s.Txt
+			} else {
+				rhs = s.V.src()
+			}
 		}
 		switch s.K {
 		case "def":
@@ -599,8 +605,17 @@ func genHistory(r *lib.RNG, maxStr, maxBytes int) []op {
 
 // boolMode: scripts mostly from boolFamily, values mostly booleans (top level and nested), more clones.
 func genHistoryWith(r *lib.RNG, maxStr, maxBytes int, boolMode bool) []op {
+	return genHistoryFrom(r, maxStr, maxBytes, boolMode, nil, nil)
+}
+
+// genHistoryFrom: pickScript / pickValue (when not nil) replace the script family and the value generator
+// (literals.go); with nil the choices and the order of the random draws are those of genHistoryWith.
+func genHistoryFrom(r *lib.RNG, maxStr, maxBytes int, boolMode bool, pickScript func(*lib.RNG) []stmt, pickValue func(*lib.RNG) interface{}) []op {
 	n := 4 + r.Intn(27)
 	value := func() interface{} {
+		if pickValue != nil {
+			return pickValue(r)
+		}
 		if boolMode {
 			return genBoolValue(r, maxStr, maxBytes)
 		}
@@ -631,6 +646,9 @@ func genHistoryWith(r *lib.RNG, maxStr, maxBytes int, boolMode bool) []op {
 			src := family[r.Intn(len(family))]
 			if boolMode && r.Chance(3, 4) {
 				src = boolFamily[r.Intn(len(boolFamily))]
+			}
+			if pickScript != nil {
+				src = pickScript(r)
 			}
 			scripts = append(scripts, &sc{src: src})
 			push(op{K: "new", Src: src})
